@@ -80,6 +80,19 @@ def gen_case(rng, maxlen, files_fraction=0.2):
     return {'base': base, 'ops': ops}
 
 
+def exhaustive_cases(maxold):
+    """every single save after replacing a collection of <= maxold saved members by any arrangement
+    (sub-multiset, permutation) of the old members and up to two fresh ones, at four sites"""
+    import itertools
+    for site in ('scene', 'node_tr', 'node_ch', 'library'):
+        for k in range(maxold + 1):
+            items = list(range(k)) + ['f0', 'f1']
+            for m in range(len(items) + 1):
+                for new in itertools.permutations(items, m):
+                    yield {'base': {'kind': 'exh', 'site': site, 'old': k},
+                           'ops': [{'op': 'save'}, {'op': 'exh_set', 'site': site, 'new': list(new)}]}
+
+
 # ---------------------------------------------------------------- Coq encoding
 
 def c_skel(t, I, ctor):
@@ -102,7 +115,7 @@ def crashed(case, reason):
             'sites': [], 'info': {'crashed': True}}
 
 
-def run_cases(cases, pid=PID, content=False, timeout=300):
+def run_cases(cases, pid=PID, content=False, timeout=90):
     chunks = [cases[i:i + 40] for i in range(0, len(cases), 40)]
     from concurrent.futures import ThreadPoolExecutor
 
@@ -163,15 +176,17 @@ def run(ctx):
     quick = ctx.quick()
     cases = corpus_cases()
     ncorpus = len(cases)
-    nrand = 260 if quick else 4000
+    nrand = 700 if quick else 4000
     for _ in range(nrand):
         cases.append(gen_case(ctx.rng, 12 if quick else 40))
+    exh = list(exhaustive_cases(2 if quick else 4))
+    cases.extend(exh)
     ctx.log('running %d edit histories on the implementation' % len(cases))
     results = run_cases(cases)
     usable = [(c, r) for c, r in zip(cases, results) if 'skel_model' in r]
     terms = [c_case(r) for _, r in usable]
     ctx.log('evaluating the reconciliation model and the emission skeletons inside Coq (%d cases)' % len(terms))
-    bad, errors = core.coq_eval_cases(ctx, HEADER, CASE_TYPE, terms, 'C02.mismatches', chunk=40)
+    bad, errors = core.coq_eval_cases(ctx, HEADER, CASE_TYPE, terms, 'C02.mismatches', chunk=60)
     failures = failures_of(cases, results)
     known = {k['signature'] for k in core.load_known() if k.get('property') == PID}
     mismatches = []
@@ -195,7 +210,11 @@ def run(ctx):
         'distribution': distribution(cases, results),
         'mismatches': mismatches,
         'errors': errors,
+        'exhaustive': not quick,
     }
+    corr['distribution']['exhaustive_single_save_cases'] = len(exh)
+    corr['distribution']['exhaustive_slice'] = ('all arrangements of <= %d saved members and <= 2 fresh ones at the sites scene, '
+                                                'node transforms, node children, library' % (2 if quick else 4))
 
     def search(mm):
         extra = [m['input'] for m in mm] + [gen_case(ctx.rng, 20) for _ in range(300)]
